@@ -328,7 +328,7 @@ def lz4flex_cases(ctx, scratch, quick):
     """frames written by the lz4_flex crate itself (64 KiB internal blocks, linked / independent)"""
     rng = ctx.rng
     out = []
-    specs = [(70000, 4, 0, 1000), (70000, 4, 1, 4096), (140000, 4, 1, 8192)] + ([] if quick else [(300000, 5, 1, 6000), (131072, 4, 0, 4096), (200000, 4, 1, 3000)])
+    specs = [(70000, 4, 0, 1000), (67000, 4, 1, 4096)] + ([] if quick else [(140000, 4, 1, 8192), (300000, 5, 1, 6000), (131072, 4, 0, 4096), (200000, 4, 1, 3000)])
     lines = []
     for j, (n, bd, linked, bs) in enumerate(specs):
         plain = text_log(rng, n // 60 + 5, "flex")[0][:n]
@@ -392,14 +392,18 @@ def run_blocks(ctx, scratch, quick):
     lines, plan = [], []
     for ci, c in enumerate(cases):
         seq, rnd = requests_for(rng, c)
-        for mode, idx in ((1, seq), (0, rnd)):
-            lines.append("blocks\t%s\t%d\t%d\t%d\t%s" % (hx(c["path"].encode()), FTA[c["codec"]], c["bs"], mode, ",".join(map(str, idx))))
+        modes = [(1, seq), (0, rnd)]
+        if c["codec"] in ("gz", "bz2", "lz4") and not c.get("subset"):
+            modes.append((2, [rng.randrange(len(seq)) for _ in range(min(len(seq) + 2, 24))]))   # drop ON, any order
+        for mode, idx in modes:
+            lines.append("blocks\t%s\t%d\t%d\t%d\t%s" % (hx(c["path"].encode()), FTA[c["codec"]], c["bs"], 1 if mode else 0, ",".join(map(str, idx))))
             plan.append((ci, mode))
     outl, err = vlib.harness("c05", lines, timeout=900)
     if outl is None or len(outl) != len(lines):
         ctx.obligation_broken("correspondence", "harness c05 run", err)
         return dict(block_cases=0)
     rows = []           # (case index, mode, coq text, results)
+    seq_rows = []       # the same for one reader serving requests in any order with the drop on
     bad_new = 0
     for (ci, mode), o in zip(plan, outl):
         p = parse_blocks(o)
@@ -412,23 +416,38 @@ def run_blocks(ctx, scratch, quick):
         filesz, nread, results = p
         if filesz != len(c["plain"]):
             ctx.failure(dict(level="block", codec=c["codec"], bs=c["bs"], n=len(c["plain"]), meta=c["meta"]), "filesz %d" % len(c["plain"]), "filesz %d" % filesz)
-        rows.append((ci, mode, coq_case(c, nread if c["codec"] == "xz" else 0, results), results))
+        (seq_rows if mode == 2 else rows).append((ci, mode, coq_case(c, nread if c["codec"] == "xz" else 0, results), results))
     hdr = vlib.COQ_PRINT_HDR + "From Coq Require Import String List NArith.\nImport ListNotations.\nFrom S4.Corr Require Import C05.\nOpen Scope string_scope.\n"
     shards = vlib.shard(list(range(len(rows))), vlib.NCPU)
     # balance: big cases first spread
     order = sorted(range(len(rows)), key=lambda i: -len(rows[i][2]))
     shards = [order[j::vlib.NCPU] for j in range(vlib.NCPU) if order[j::vlib.NCPU]]
-    model_dis, spec_dis = [], []
-    for fn, acc, label in (("model_bad", model_dis, "model"), ("spec_bad", spec_dis, "spec")):
-        texts = [hdr + "Definition cases : list case_t := [\n%s\n].\nEval vm_compute in (%s cases).\n" % (";\n".join(rows[i][2] for i in sh), fn) for sh in shards]
-        res = vlib.coq_eval_shards(os.path.join(CACHE, "cases", "C05", label), texts)
-        for sh, (rc, out) in zip(shards, res):
-            pairs = vlib.parse_eval_pairs(out) if rc == 0 else None
-            if pairs is None:
-                ctx.obligation_broken("correspondence" if label == "model" else "spec-evaluation", "coqc on C05 %s cases" % label, out)
-                break
-            for k, v in pairs:
+    model_dis, spec_dis, seq_dis = [], [], []
+    seq_shards = [list(range(len(seq_rows)))[j::len(shards)] for j in range(len(shards))]
+    texts = [hdr + "Definition cases : list case_t := [\n%s\n].\nEval vm_compute in (model_bad cases).\nEval vm_compute in (spec_bad cases).\n" % ";\n".join(rows[i][2] for i in sh)
+             + "Definition seqcases : list case_t := [\n%s\n].\nEval vm_compute in (seq_bad seqcases).\n" % ";\n".join(seq_rows[i][2] for i in ssh)
+             for sh, ssh in zip(shards, seq_shards)]
+    res = vlib.coq_eval_shards(os.path.join(CACHE, "cases", "C05", "blocks"), texts)
+    import re
+    for sh, (rc, out) in zip(shards, res):
+        parts = re.findall(r"=\s*(\[.*?\])\s*:\s*list", out, flags=re.S) if rc == 0 else []
+        if len(parts) != 3:
+            ctx.obligation_broken("correspondence", "coqc on C05 block cases (model_bad / spec_bad / seq_bad)", out)
+            break
+        for acc, body in ((model_dis, parts[0]), (spec_dis, parts[1])):
+            for t in re.findall(r"\(([^()]*)\)", body):
+                k, v = [int(x) for x in re.findall(r"\d+", t)]
                 acc.append((sh[k], v))
+        ssh = seq_shards[shards.index(sh)]
+        for t in re.findall(r"\(([^()]*)\)", parts[2]):
+            k, v = [int(x) for x in re.findall(r"\d+", t)]
+            seq_dis.append(ssh[k])
+    if seq_dis:
+        ci, mode, _, results = seq_rows[seq_dis[0]]
+        c = cases[ci]
+        ctx.obligation_broken("correspondence", "one BlockReader serving requests in any order (look-behind drop on) vs Model.Assemble.read_blocks_m (codec %s)" % c["codec"],
+                              json.dumps(dict(codec=c["codec"], bs=c["bs"], n=len(c["plain"]), plain_hex=hx(c["plain"][:2000]), sched=c["sched"][:50],
+                                              requests_and_results=[(r[0], r[1]) for r in results], meta=c["meta"], disagreements=len(seq_dis))))
     if model_dis:
         ri, v = model_dis[0]
         ci, mode, _, results = rows[ri]
@@ -471,9 +490,16 @@ def run_blocks(ctx, scratch, quick):
         else:
             size_classes["multi_block"] += 1
     return dict(block_cases=len(cases), block_reader_runs=len(rows), block_results_compared=sum(len(r[3]) for r in rows),
-                block_codec_histogram=hist, block_size_classes=size_classes, block_model_disagreements=len(model_dis),
+                block_codec_histogram=hist, block_size_classes=size_classes, block_model_disagreements=len(model_dis), block_sequence_runs=len(seq_rows), block_sequence_disagreements=len(seq_dis),
+                block_sequence_done_for_existing_block=sum(1 for r in seq_rows for x in r[3] if x[1] == 1 and x[0] * cases[r[0]]["bs"] < len(cases[r[0]]["plain"])),
                 block_spec_failures=len(spec_dis), block_new_errors=bad_new, block_nontrivial=len(nontriv),
                 block_sample=dict(codec=cases[0]["codec"], bs=cases[0]["bs"], n=len(cases[0]["plain"]), meta=cases[0]["meta"]))
+
+
+def fixedstruct_streamed_multi_block(kind, form, n, bs):
+    """known-finding class: an accounting-record (FixedStruct) payload stored as gz / bz2 / lz4 whose
+    uncompressed size exceeds one read block"""
+    return kind == "utmp" and (form in ("gz", "bz2") or form.startswith("lz4")) and n > bs
 
 
 # ----------------------------------------------------------------------------- C2: end to end
@@ -505,6 +531,10 @@ def write_forms(ctx, scratch, base, suffix, plain, forms, lz4_styles=("one",), b
         elif f == "tar":
             blob, member, meta = tar_variant(rng, plain, member=name)
             q = os.path.join(d, "x.tar")
+        elif f == "tarpipe":       # member path containing the sub-path separator '|'
+            blob, member, meta = tar_variant(rng, plain, member="p|" + name)
+            os.makedirs(os.path.join(d, "pipe"), exist_ok=True)
+            q = os.path.join(d, "pipe", "x.tar")
         elif f.startswith("lz4"):
             continue
         open(q, "wb").write(blob)
@@ -512,7 +542,7 @@ def write_forms(ctx, scratch, base, suffix, plain, forms, lz4_styles=("one",), b
     if any(f.startswith("lz4") for f in forms):
         for style in lz4_styles:
             sizes = split_sizes(rng, len(plain), style, bs_for_lz4)
-            mx = LZ4_BD_MAX[7]
+            mx = LZ4_BD_MAX[7] - 65536      # literal-only 'compressed' blocks carry ~16 KiB of length bytes
             sizes = [s2 for s in sizes for s2 in ([mx] * (s // mx) + ([s % mx] if s % mx else []))]
             dd = os.path.join(d, "lz4_" + style)
             os.makedirs(dd, exist_ok=True)
@@ -536,6 +566,7 @@ def e2e(ctx, scratch, quick):
     payloads.append(("nonl", ".log", b[:-1], times, "text"))
     for j, nr in enumerate([1, 3, 40] if quick else [1, 2, 3, 10, 40, 200]):
         payloads.append(("utmp%d" % j, ".utmp", utmp_file(rng, nr), None, "utmp"))
+    payloads.append(("utmpbig", ".wtmp", utmp_file(rng, 200), None, "utmp"))
     fx = os.path.join(vlib.REPO, "logs")
     fixtures = [("wtmpfx", ".wtmp", os.path.join(fx, "Ubuntu22/x86_64/wtmp"), "utmp"),
                 ("evtxfx", ".evtx", os.path.join(fx, "programs/evtx/Microsoft-Windows-Kernel-PnP%4Configuration.evtx"), "evtx")]
@@ -550,7 +581,8 @@ def e2e(ctx, scratch, quick):
     blockszs_text = [64, 100, 4096, 65536] if quick else [64, 65, 100, 512, 1000, 4096, 65536, 0x20000]
     for lab, suf, plain, times, kind in payloads:
         if kind == "text":
-            forms = write_forms(ctx, scratch, lab, suf, plain, ["gz", "bz2", "xz", "tar", "lz4"], lz4_styles=("one", "aligned", "random"), bs_for_lz4=4096)
+            forms = write_forms(ctx, scratch, lab, suf, plain, ["gz", "bz2", "xz", "tar", "lz4"] + (["tarpipe"] if lab in ("text4", "text5") else []),
+                                lz4_styles=("one", "aligned", "random"), bs_for_lz4=4096)
             bss = blockszs_text
         elif kind == "utmp":
             forms = write_forms(ctx, scratch, lab, suf, plain, ["gz", "bz2", "xz", "tar", "lz4"], lz4_styles=("one",))
@@ -631,6 +663,10 @@ def e2e(ctx, scratch, quick):
         cls = []
         if flab.startswith("lz4") and info and lz4_misaligned(info["lz4_sizes"], bs, n):
             cls = ["lz4_frame_block_boundary_inside_read_block"]
+        if flab == "tarpipe":
+            cls.append("tar_member_path_contains_separator")
+        if fixedstruct_streamed_multi_block(kind, flab, n, bs):
+            cls.append("fixedstruct_streamed_multi_block")
         fail_hist[(kind, flab, bs, bool(cls))] = fail_hist.get((kind, flab, bs, bool(cls)), 0) + 1
         if True:
             ctx.failure(dict(level="stdout", payload=lab, kind=kind, form=flab, args=args, path=path, plain_path=ref_path(runs, lab),
@@ -663,8 +699,12 @@ def run(ctx):
         return ctx.finish()
     scratch = vlib.scratch_dir("C05")
     cov = {}
+    import time
+    t0 = time.time()
     cov.update(run_blocks(ctx, scratch, quick))
+    t1 = time.time()
     cov.update(e2e(ctx, scratch, quick))
+    cov["phase_seconds"] = dict(blocks=round(t1 - t0, 1), end_to_end=round(time.time() - t1, 1))
     ctx.coverage.update(cov)
     ctx.coverage.update(
         evaluations=cov.get("block_results_compared", 0) + cov.get("stdout_comparisons", 0),
